@@ -815,3 +815,19 @@ Section Main.
       end
     end.
 End Main.
+
+(* ================================================================== *)
+(* 5. lstopo --of synthetic: output_synthetic() of utils/lstopo/lstopo-text.c              *)
+(* [export_into t buflen]: what hwloc_topology_export_synthetic(topology, buf, buflen, flags) returns and
+   leaves in buf when the complete description is [t] (the snprintf contract of the export: C07).
+   output_synthetic: a first call on char sbuffer[1024]; if the returned length does not fit, a second
+   call on malloc(length+1) with buflen [second_len length] (= length+1 in the code); then
+   fprintf(output, "%s\n", buffer). *)
+Definition SBUFFER : nat := 1024.
+Definition export_into (t : list N) (buflen : nat) : nat * list N :=
+  (List.length t, match buflen with O => [] | S k => firstn k t ++ [0] end).
+Definition output_synthetic_gen (second_len : nat -> nat) (t : list N) : list N :=
+  let l := fst (export_into t SBUFFER) in
+  (if Nat.leb SBUFFER l then content (snd (export_into t (second_len l)))
+   else content (snd (export_into t SBUFFER))) ++ NL.
+Definition output_synthetic : list N -> list N := output_synthetic_gen S.
